@@ -854,6 +854,78 @@ def sched_cases(jobs):
     return out
 
 
+def build_trace_cases(jobs):
+    """Executions of the lazy build recorded as event traces for Trace_Build.tla.
+    job = {id, world, threads:{A: call, B: call}, granularity, switches ('sweep1' | 'sweepab' | [[..]]),
+    limit, offset, faults: [None | {thread, n}], after: [calls]}.  One case per (schedule, fault)."""
+    from . import buildrt
+
+    def rank(call):
+        return call["pos"][0]["c"]
+
+    def res_of(obs):
+        if obs is None:
+            return None
+        if obs["entered"]:
+            return int(obs["entered"][0]["m"][1:])
+        return {"nomethod": 0, "ambiguous": -1}.get(obs["kind"])
+
+    out = []
+    for job in jobs:
+        try:
+            sc = buildrt.Scenario(job["world"], threaded=True)
+            names = list(job["threads"])
+            tnum = {n: j + 1 for j, n in enumerate(names)}
+            gran = job["granularity"]
+            ov = sc.new_function()
+            _, counts, _, _, _ = buildrt.run_schedule(sc, ov, {names[0]: job["threads"][names[0]]}, [], gran)
+            total = counts[names[0]]
+            sw = job["switches"]
+            if sw == "sweep1":
+                pts = [[]] + [[k] for k in range(1, total + 1)]
+            elif sw == "sweepab":
+                ov = sc.new_function()
+                _, cb, _, _, _ = buildrt.run_schedule(sc, ov, {names[1]: job["threads"][names[1]]}, [], gran)
+                pts = [[a, [names[1], b]] for a in range(1, total + 1) for b in range(1, cb[names[1]] + 1)]
+            else:
+                pts = sw
+            limit = job.get("limit")
+            if limit and len(pts) > limit:
+                off = job.get("offset", 0)
+                pts = [pts[(off + (i * len(pts)) // limit) % len(pts)] for i in range(limit)]
+            for fault in job.get("faults", [None]):
+                for p in pts:
+                    ov = sc.new_function()
+                    events = []
+                    res, _, _, stuck, _ = buildrt.run_schedule(sc, ov, dict(job["threads"]), list(p), gran, events=events, fault=fault)
+                    for c in job.get("after", []):
+                        events.append({"ev": "start", "t": names[0]})
+                        events.append({"ev": "end", "t": names[0], "obs": sc.call(ov, c), "call": c})
+                    evs = []
+                    bad = None
+                    for e in events:
+                        r = {"ev": e["ev"], "t": tnum[e["t"]], "res": 0, "arg": 0}
+                        if e["ev"] == "end":
+                            obs = e["obs"]
+                            call = e.get("call") or job["threads"][e["t"]]
+                            if obs is None or obs["kind"] in ("config", "injected"):
+                                r["ev"] = "failed"
+                            else:
+                                v = res_of(obs)
+                                if v is None:
+                                    bad = f"unexpected outcome {obs.get('kind')} {obs.get('err')}"
+                                    v = -9
+                                r["res"], r["arg"] = v, rank(call)
+                        evs.append(r)
+                    tag = "-".join(str(x if isinstance(x, int) else x[1]) for x in p) or "none"
+                    ftag = f"f{fault['thread']}{fault['n']}" if fault else "nofault"
+                    out.append({"id": f"{job['id']}@{tag}@{ftag}", "events": evs, "schedule": p, "fault": fault, "stuck": stuck, "odd": bad})
+            sc.bw.cleanup()
+        except Exception:
+            out.append({"id": job["id"], "skip": "harness: " + traceback.format_exc()[-700:]})
+    return out
+
+
 # ---------------------------------------------------------------------------
 # C12 / C13: tables of typeorder / subclasscheck / applicability
 # ---------------------------------------------------------------------------
